@@ -119,6 +119,14 @@ def gen_cases(tier, seed):
                                   'config': dict(multipart_threshold=T, multipart_chunksize=C, max_request_concurrency=rng.choice([1, 2, 3]),
                                                  max_in_memory_upload_chunks=rng.choice([1, 2, 3])),
                                   'client': {'checksum': rng.choice(['when_supported', 'when_required'])}})
+    # seekable streams below the threshold (single PutObject, read directly while the request is sent) with short reads
+    for (T, C) in combos:
+        for size in [s for s in sizes_for(T, C) if 0 < s < T]:
+            for caps in ([3], [1, 7, 2], [C, 1]):
+                t = {'kind': 'upload', 'src': 'seekable', 'size': size, 'start': rng.choice([0, 5]), 'src_caps': caps, 'flavor': rng.choice(['declared', 'duck'])}
+                cases.append({'seed': rng.randrange(1 << 30), 'min_part': 1, 'transfers': [t], 'config': dict(multipart_threshold=T, multipart_chunksize=C),
+                              'client': {'checksum': rng.choice(['when_supported', 'when_required']), 'scheme': rng.choice(['https', 'http'])},
+                              'body_read_sizes': rng.choice([[8192], [3], [1, 5, 2]])})
     # legacy S3Transfer.upload_file (path sources), parts finishing in steered orders
     for (T, C) in combos:
         for size in sizes_for(T, C):
